@@ -38,6 +38,7 @@ type SThread struct {
 	blocked any // mutex the thread waits for, or nil
 	wantR   bool
 	inOp    bool
+	started bool
 	vc      []int
 	body    func(t *SThread)
 }
@@ -204,7 +205,13 @@ func (s *Sched) Cur() *SThread {
 // returns the logical call time.
 func (t *SThread) OpBegin() int {
 	t.inOp = false
-	t.Point()
+	if t.started {
+		// Between two operations of a thread. (Before its first operation the
+		// thread was just dispatched, which already was a free choice; a second
+		// one with nothing in between would only duplicate schedules.)
+		t.Point()
+	}
+	t.started = true
 	t.s.clock++
 	t.inOp = true
 	return t.s.clock
